@@ -13,8 +13,10 @@ import (
 	"fmt"
 	"os"
 	"path/filepath"
+	"reflect"
 	"runtime"
 	"strings"
+	"sync"
 	"syscall"
 	"time"
 
@@ -197,8 +199,11 @@ func hostLib() native.Packages {
 				ch <- v
 			}
 		},
-		"Add":   func(a, b int) int { return a + b },
-		"Label": func(s string, n int) string { return s + string(rune('a'+n%26)) },
+		"Add":    func(a, b int) int { return a + b },
+		"Apply":  func(f func(int) int, v int) int { return f(v) },
+		"Acc":    reflect.TypeOf(acc{}),
+		"NewAcc": func() *acc { return &acc{} },
+		"Label":  func(s string, n int) string { return s + string(rune('a'+n%26)) },
 	}}}
 }
 
@@ -208,4 +213,22 @@ func cpuMillis() int64 {
 		return 0
 	}
 	return (ru.Utime.Sec+ru.Stime.Sec)*1000 + int64(ru.Utime.Usec+ru.Stime.Usec)/1000
+}
+
+// acc is the scriggo side of hostlib.Acc.
+type acc struct {
+	mu sync.Mutex
+	n  int
+}
+
+func (a *acc) Add(v int) {
+	a.mu.Lock()
+	a.n += v
+	a.mu.Unlock()
+}
+
+func (a *acc) Get() int {
+	a.mu.Lock()
+	defer a.mu.Unlock()
+	return a.n
 }
